@@ -1,6 +1,7 @@
 """C04 — rewind exactly undoes steps."""
 import hashlib
 import itertools
+import zlib
 import random
 from . import runlib as R
 
@@ -85,6 +86,29 @@ def walks(ctx):
     return out
 
 
+def failing_walks(ctx):
+    """histories that go on after a step has failed (SESSIONF): the failed step is retried, undone steps are redone — a failed
+    step must leave nothing behind in any of the histories rewind reads (script-code start, op count, budget, positions)"""
+    quick = ctx.tier == "quick"
+    out = []
+    scripts = [("51ab6a", ()), ("51ab51ab0069", ()), ("ab8b", ()), ("5163ab006968", ()), ("0500000080" "00ab8b", ()), ("51ab5175ab7575", ()),
+               ("ab51ab6b6c6c", ()), ("00ab00ab00ab69", ()), ("51ab020100" "8b", ()), ("ab51ab5293ab88", ())]
+    for sv in (0, 1, 3):
+        w = 1000 if sv == 3 else None
+        for (sc, st) in scripts:
+            scb = bytes.fromhex(sc)
+            nops = 0
+            i = 0
+            while i < len(scb):     # number of operations (pushes of up to 75 bytes only)
+                i += 1 + (scb[i] if 1 <= scb[i] <= 75 else 0); nops += 1
+            for fl in (R.STD, 0):
+                for d in range(0, 8 if quick else 11):
+                    for cmds in itertools.product("sr", repeat=d):
+                        if quick and d >= 6 and (zlib.crc32((sc + ''.join(cmds)).encode()) & 3): continue
+                        out.append(session_line(sv, fl, scb, st, b"", "s" * nops + "".join(cmds), weight=w).replace("SESSION ", "SESSIONF ", 1))
+    return out
+
+
 def nontrivial(case, impl):
     # a history is non-trivial when at least one rewind was accepted
     m = impl.split(" ")[0]
@@ -94,7 +118,7 @@ def nontrivial(case, impl):
 
 
 def run(ctx):
-    for name, ls in (("history-tree", lines(ctx)), ("random-walks", walks(ctx))):
+    for name, ls in (("history-tree", lines(ctx)), ("random-walks", walks(ctx)), ("failing-walks", failing_walks(ctx))):
         impl = ctx.harness_sharded(ls)
         model = ctx.driver_sharded(ls, "model")
         spec = ctx.driver_sharded(ls, "spec")
@@ -104,7 +128,7 @@ def run(ctx):
 
 
 def replay(ctx, case):
-    v = case.replace("SESSION ", "SESSIONV ", 1) if case.startswith("SESSION ") else case
+    v = case.replace("SESSION ", "SESSIONV ", 1) if case.startswith("SESSION ") else case    # (SESSIONF has no verbose form)
     print("impl :", ctx.harness([v])[0])
     print("model:", ctx.driver([v])[0])
     print("spec :", ctx.driver([v], "spec")[0])
